@@ -18,44 +18,73 @@ def split_histories(lines):
     return hs
 
 
-def validate(run, wd, histories):
-    """validate histories with TraceC02; returns the list of rejected histories.  After a rejection the histories
-    following the rejected one are validated in a new run (the prefix is already accepted), so that every violating
-    history is found at the total cost of about one pass (capped)."""
-    rejected = []
-    start = 0
-    accepted = 0
-    for it in range(25):
-        part = histories[start:]
-        if not part:
-            break
-        flat = [e for h in part for e in h]
-        vlib.write_ndjson(os.path.join(wd, "trace.ndjson"), flat)
-        res = vlib.tlc(wd, "TraceC02", workers=1, timeout=3000)
-        if res.violation and ("AtMostOnce" in res.out or "NoFalseReplay" in res.out):
-            # an invariant of the abstract machine failed inside a validated prefix: cannot happen for an accepted
-            # prefix (the trace actions are the abstract actions); treat as machinery failure
-            raise vlib.Inconclusive("abstract invariant violated during trace validation:\n" + res.out[-3000:])
-        if res.rc != 0 or not res.finished:
-            raise vlib.Inconclusive("TraceC02 failed:\n" + res.out[-3000:])
-        rej = res.tags("REJECTED")
-        run.add_model(res)
-        if not rej:
-            accepted += len(part)
-            break
-        pos = int(rej[0]) - 1          # index (0-based) of the first event no behaviour explains
-        n = 0
-        for hi, h in enumerate(part):
-            if pos < n + len(h):
-                rejected.append((h, pos - n))
-                accepted += hi
-                start += hi + 1
+def validate_part(part_histories):
+    """validate a list of histories with TraceC02 in a scratch directory of its own; returns (rejected [(history, position)], accepted
+    count, [TLC results], capped).  After a rejection the histories following the rejected one are validated in a new run (the
+    prefix is already accepted), so that every violating history is found at the total cost of about one pass (capped)."""
+    wd = vlib.spec_scratch(["c02"])
+    try:
+        rejected, results = [], []
+        start, accepted, capped = 0, 0, False
+        for it in range(25):
+            part = part_histories[start:]
+            if not part:
                 break
-            n += len(h)
+            flat = [e for h in part for e in h]
+            vlib.write_ndjson(os.path.join(wd, "trace.ndjson"), flat)
+            res = vlib.tlc(wd, "TraceC02", workers=1, timeout=3400, xmx="3g")
+            if res.violation and ("AtMostOnce" in res.out or "NoFalseReplay" in res.out):
+                # an invariant of the abstract machine failed inside a validated prefix: cannot happen for an accepted
+                # prefix (the trace actions are the abstract actions); treat as machinery failure
+                raise vlib.Inconclusive("abstract invariant violated during trace validation:\n" + res.out[-3000:])
+            if res.rc != 0 or not res.finished:
+                raise vlib.Inconclusive("TraceC02 failed:\n" + res.out[-3000:])
+            rej = res.tags("REJECTED")
+            results.append(res)
+            if not rej:
+                accepted += len(part)
+                break
+            pos = int(rej[0]) - 1          # index (0-based) of the first event no behaviour explains
+            n = 0
+            for hi, h in enumerate(part):
+                if pos < n + len(h):
+                    rejected.append((h, pos - n))
+                    accepted += hi
+                    start += hi + 1
+                    break
+                n += len(h)
+            else:
+                raise vlib.Inconclusive("rejected position outside the trace")
         else:
-            raise vlib.Inconclusive("rejected position outside the trace")
-    else:
-        run.extra["validation_capped"] = True
+            capped = True
+        return rejected, accepted, results, capped
+    finally:
+        shutil.rmtree(wd, ignore_errors=True)
+
+
+def validate(run, wd, histories):
+    """validate histories (independent of each other: each starts with a reset) in up to 8 parallel TLC processes"""
+    import concurrent.futures
+    total = sum(len(h) for h in histories)
+    nparts = max(1, min(8, total // 20000))
+    parts, cur, size = [], [], 0
+    for h in histories:
+        cur.append(h)
+        size += len(h)
+        if size >= total / nparts and len(parts) < nparts - 1:
+            parts.append(cur)
+            cur, size = [], 0
+    if cur:
+        parts.append(cur)
+    rejected, accepted = [], 0
+    with concurrent.futures.ThreadPoolExecutor(max_workers=len(parts)) as ex:
+        for rej, acc, results, capped in ex.map(validate_part, parts):
+            rejected += rej
+            accepted += acc
+            for r in results:
+                run.add_model(r)
+            if capped:
+                run.extra["validation_capped"] = True
     run.cov["traces_validated_against_impl"] = accepted
     return rejected
 
